@@ -60,7 +60,7 @@ prop("C20",
      "process-global mutators (os.Chdir via fetchAndCachePackages; the package-level koanf instance; the output files), so overlapping "
      "regenerations could interleave and the older finish last; (T2) generateInWatchMode defers a literal that calls recover() directly "
      "before generateImpl, so a panic in an intermediate state does not kill the watcher; (T3) every os.Chdir away is paired with a "
-     "deferred restore before any return, so an error does not leave the watcher in another directory.",
+     "deferred restore before any return, so an error does not leave the watcher in another directory. (T4) in the watcher loop every received fsnotify event reaches, on every path back to the select (go/cfg), a call that re-arms the debounce timer, and that timer's function reaches generateImpl — an event swallowed by a filter leaves stale files; (T6) between the scheduled closure and generateImpl no function terminates the process or forwards generateImpl's error to a channel, so an invalid intermediate model is reported and the watcher lives on.",
      "Convergence itself (which regeneration runs last relative to the last edit), fsnotify behaviour, adequacy of the 5 ms debounce: schedules cannot be enumerated statically.",
      COMMON_ASSUME)
 
